@@ -59,6 +59,21 @@ def run(tier, seed, model_ok, spec_ok, replay=None):
         rts = [rt for rt in (rg.rule(doc, cast_p=0.5) for _ in range(g.r.choice([1, 1, 2, 3]))) if in_fragment(g, rt)]
         if not rts:
             continue
+        if g.r.random() < 0.12:
+            # a rule path with a datum / multiplicity modifier or source data cannot be written as part specs: refusal expected
+            pth = rts[0].path
+            k = g.r.random()
+            if k < 0.5:
+                pth.mods = [g.r.choice(["length", "dtype", "map_keys", "map_values"])]
+            elif k < 0.85 and any(p.explicit for p in pth.parts):
+                pth.mods = [g.r.choice(["first", "last", "all"])]
+            else:
+                pth.has_src, pth.src = True, {"a": 1}
+            try:
+                rts[0].build()
+            except Exception:
+                pth.mods, pth.has_src, pth.src = [], False, None
+        modded = any(rt.path.mods or rt.path.has_src for rt in rts)
         for rt in rts[:1]:
             out = E.run_outcome(lambda: rt.build().to_json_like())
             try:
@@ -77,9 +92,16 @@ def run(tier, seed, model_ok, spec_ok, replay=None):
         out = E.run_outcome(roundtrip)
         dist["ok" if out[0] == "ok" else "exc:" + out[1]] += 1
         if out[0] == "exc":
+            if modded and out[1] == "ValueError":
+                dist["refused-modified-path"] += 1
+                continue
             direct.append({"kind": "direct", "what": f"schema JSON round trip raised {out[1]}", "schema": [r.descr()[:200] for r in rts]})
             continue
         js, s2 = out[1]
+        if modded:
+            direct.append({"kind": "direct", "what": "a rule whose path has a modifier / source data was serialised (part specs cannot "
+                           "represent it)", "schema": [r.descr()[:200] for r in rts], "json": repr(js)[:300]})
+            continue
         if not (s2 == s):
             direct.append({"kind": "direct", "what": "rebuilt schema is not equal to the original", "schema": [r.descr()[:200] for r in rts],
                            "json": repr(js)[:300]})
